@@ -43,7 +43,7 @@ Qed.
 
 Lemma wf_rec_has e r d : wf_rec e r = true -> In d (deps e) -> exists v, aget (rvals r) d = Some v.
 Proof.
-  unfold wf_rec. rewrite !andb_true_iff. intros [[H _] _] Hd. apply list_eqb_eq in H. apply aget_in_keys. rewrite H. exact Hd.
+  unfold wf_rec. rewrite !andb_true_iff. intros [[[H _] _] _] Hd. apply list_eqb_eq in H. apply aget_in_keys. rewrite H. exact Hd.
 Qed.
 
 Lemma agree1_refl r d v : aget r d = Some v -> agree1 r r d = true.
@@ -57,7 +57,7 @@ Qed.
 
 Lemma wf_rec_nonspatial e r : wf_rec e r = true -> is_spatial e = false -> rregion r = None.
 Proof.
-  unfold wf_rec. rewrite !andb_true_iff. intros [_ H] Hs. rewrite Hs in H. simpl in H. destruct (rregion r); [discriminate|auto].
+  unfold wf_rec. rewrite !andb_true_iff. intros [[_ H] _] Hs. rewrite Hs in H. simpl in H. destruct (rregion r); [discriminate|auto].
 Qed.
 
 Lemma agree1_same_val r s d : agree1 r s d = true -> aget r d = aget s d.
